@@ -449,9 +449,14 @@ def run(ck):
     rnd = random.Random(ck.seed)
     thorough = ck.tier == "thorough"
     scale = 12 if thorough else 1
-    replay_base = {}
+
+    per_kind, suppressed = {}, [0]
 
     def violation(kind, what, data, extra=None, op="msgset", no_input=False):
+        per_kind[kind] = per_kind.get(kind, 0) + 1
+        if per_kind[kind] > 2:          # at most two replays per kind of failure, so that every kind gets one of the five slots
+            suppressed[0] += 1
+            return
         r = {"kind": kind, "what": what, "replay_op": op, "data_hex": bytes(data).hex() if data is not None else None}
         r.update(extra or {})
         ck.violation(r, no_input=no_input)
@@ -678,6 +683,12 @@ def run(ck):
         nsmall = 1500 if thorough else 300                                                  # many tiny messages in 1 wrapper
         inner = CL.raw_set([(i, CL.raw_msg(0, 0, None, b"")) for i in range(nsmall)])     # (the MODEL's runner is quadratic here)
         measured("msgset", 0, CL.raw_set([(nsmall - 1, CL.raw_msg(mg, 1, None, CL.gz(inner), 1))]), "gzip_many_small")
+    # wrappers nested 5 deep around 200 tiny messages (every message is handed up through every level)
+    for mg in (0, 1):
+        nest = CL.raw_set([(i, CL.raw_msg(0, 0, None, b"")) for i in range(200)])
+        for _ in range(5):
+            nest = CL.raw_set([(199, CL.raw_msg(mg, 1, None, CL.gz(nest), 1))])
+        measured("msgset", 0, nest, "gzip_nested5")
     # long valid inputs: the bound is linear, not just "small inputs are cheap"
     big = 3 if thorough else 1
     for api in ("produce", "metadata", "offsets", "apiversions", "join"):
@@ -694,6 +705,11 @@ def run(ck):
         measured(api, 0, R.spec_bytes(api, r, 0), "long_valid")
     tracemalloc.stop()
     ck.hist("malformed_inputs", nmal)
+    ck.cov["notes"] = [
+        "bit errors in the 8-byte offset field of a set entry are not under the CRC (message formats 0 and 1): the intact message is delivered under the altered offset (histogram corrupt/offset)",
+        "bit errors in the 4-byte size field: never the damaged entry; ChecksumError, ProtocolError (negative), or the entry is taken for a partial trailing message (silent stop / ConsumerFetchSizeTooSmall) (histogram corrupt/size)",
+        "nested compression: every message is handed up through one generator per nesting level, so decoding costs (messages x depth); depth is bounded only by Python's recursion limit (RecursionError near 320 levels). Measured on the unchanged tree, untraced: 10 KB on the wire = 200 levels around 4000 empty messages -> 2.0 s. Kafka itself allows one level; the run exercises depth <= 5",
+    ]
     ck.cov["work_monitor"] = {"bounds": {"lines": [LINES_BASE, LINES_PER_BYTE], "tracemalloc_peak": [MEM_BASE, MEM_PER_BYTE], "seconds": [TIME_BASE, TIME_PER_BYTE]},
                               "worst_observed": {k: (round(v, 3) if isinstance(v, float) else v) for k, v in worst.items()},
                               "unit": "per byte of (input + decompressor output); ratios taken over inputs of >= 16 bytes"}
@@ -824,6 +840,9 @@ def run(ck):
         violation("shared codec model and implementation disagree", label, None,
                   {"correspondence": "corr:codec:" + label, "case": case[:200], "impl": impl[:100], "model": model[:100],
                    "theorems_no_longer_tied": ["all C12_* about dec_set / dec_message / read_string / crc32"]}, no_input=True)
+    if suppressed[0]:
+        ck.nviol = getattr(ck, "nviol", 0) + suppressed[0]
+        ck.cov["violations_by_kind"] = per_kind
     if thorough:
         ck.coqchk(["AV.Props.C12"])
     ck.cov["rule"] = ("seeded generators (random.Random(VERIF_SEED)). Mostly-valid stream: message sets of 1-5 entries, formats 0/1, null/empty/random keys and "
